@@ -317,8 +317,10 @@ def worker(job):
     if job.get("acc"):
         accumulation(ck, rng)
         return {"violations": ck.violations, "evaluations": ck.evaluations, "distinct": sorted(ck.distinct)}
-    for c in job["cfgs"]:
-        check_cfg(ck, c, rng)
+    for k, c in enumerate(job["cfgs"]):
+        # the number of grid points in the batch is part of the quantifier: 1, 2, 3 collide with the spin / channel
+        # axis lengths that the reshapes in the evaluators key on; 12 is the generic case
+        check_cfg(ck, c, rng, n=(12, 2, 12, 1, 12, 3)[k % 6])
     return {"violations": ck.violations, "evaluations": ck.evaluations, "distinct": sorted(ck.distinct)}
 
 
